@@ -432,6 +432,95 @@ def family_programs():
                       ("list", [V("a"), V("b")])), True),
         ("pipe", ("seq", [("log", L("lhs")), L(1)]), V("f"),
          [("pos", ("seq", [("log", L("arg")), L(2)]))])])))
+    # pipelines into member paths: x !> A->B->f(a) means (A->B->f)(x, a);
+    # every level carries a same-named member with another meaning
+    def lvl(tag, inner=None):
+        ms = [("f", ("fn", [("a", None, False), ("b", L("d" + tag), False)],
+                     ("list", [L(tag), V("a"), V("b")]))),
+              ("g", ("fn", [("a", None, False), ("r...", None, True)],
+                     ("list", [L("g" + tag), V("a"), V("r...")])))]
+        if inner is not None:
+            ms.append(("inner", inner))
+        return ("obj", ms)
+    tree = lvl("L0", lvl("L1", lvl("L2", lvl("L3"))))
+    for depth in range(0, 4):
+        tgt = V("root")
+        for _ in range(depth):
+            tgt = ("member", tgt, "inner")
+        for mname in ("f", "g"):
+            for args in ([], [("pos", L(7))], [("named", "b", L(8))],
+                         [("pos", L(7)), ("pos", L(9))]):
+                if mname == "f" and len(args) == 2:
+                    continue
+                if mname == "g" and args and args[0][0] == "named":
+                    continue
+                progs.append(("pipe-path", ("seq", [
+                    ("def", "root", tree),
+                    ("def", "direct", ("member", tgt, mname)),
+                    ("list", [("pipe", L(3), ("member", tgt, mname), args),
+                              ("call", V("direct"),
+                               [("pos", L(3))] + args)])])))
+    # a pipeline into a function literal and chained member pipelines
+    progs.append(("pipe-path", ("seq", [
+        ("def", "root", tree),
+        ("pipe", ("pipe", L(1), ("member", ("member", V("root"), "inner"),
+                                 "f"), []),
+         ("member", ("member", ("member", V("root"), "inner"), "inner"),
+          "g"), [("pos", L(2))])])))
+    progs.append(("pipe-path", ("pipe", L(4),
+                                ("fn", [("x", None, False),
+                                        ("y", L(2), False)],
+                                 ("list", [V("x"), V("y")])), [])))
+    # defaults are evaluated at every call: a collection-literal default
+    # mutated in the body starts fresh each time and is not shared with
+    # earlier results
+    for lit, grow in (
+            (("list", []), lambda acc, x: ("call", V("append"),
+                                           [("pos", acc), ("pos", x)])),
+            (("list", [L(0)]), lambda acc, x: ("call", V("append"),
+                                               [("pos", acc), ("pos", x)])),
+            (("map", []), lambda acc, x: ("call", V("put"),
+                                          [("pos", acc), ("pos", x),
+                                           ("pos", L(1))])),
+            (("set", []), lambda acc, x: ("call", V("append"),
+                                          [("pos", acc), ("pos", x)]))):
+        for calls in ([1, 2], [1, 2, 3], [1, None, 2], [None, 1, 2]):
+            body = ("seq", [grow(V("acc"), V("x")), V("acc")])
+            cl = []
+            for c in calls:
+                if c is None:
+                    cl.append(("call", V("collect"),
+                               [("pos", L(9)), ("pos", ("list", [L(5)])
+                                                if lit[0] == "list" else lit)]))
+                else:
+                    cl.append(("call", V("collect"), [("pos", L(c))]))
+            progs.append(("default-fresh", ("seq", [
+                ("def", "collect", ("fn", [("x", None, False),
+                                           ("acc", lit, False)], body), True),
+                ("def", "r", ("list", cl)),
+                V("r")])))
+    # the same through a closure factory and a method
+    progs.append(("default-fresh", ("seq", [
+        ("def", "mk", ("fn", [], ("fn", [("x", None, False),
+                                         ("acc", ("list", []), False)],
+                                  ("seq", [("call", V("append"),
+                                            [("pos", V("acc")),
+                                             ("pos", V("x"))]), V("acc")]))),
+         True),
+        ("def", "k", ("call", V("mk"), [])),
+        ("list", [("call", V("k"), [("pos", L(1))]),
+                  ("call", V("k"), [("pos", L(2))]),
+                  ("call", ("call", V("mk"), []), [("pos", L(3))])])])))
+    progs.append(("default-fresh", ("seq", [
+        ("def", "o", ("obj", [("n", L(0)),
+                              ("tick", ("fn", [("self", None, False),
+                                               ("st", ("obj", [("n", L(0))]),
+                                                False)],
+                                        ("seq", [
+                                            ("log", ("member", V("st"), "n")),
+                                            V("st")])))])),
+        ("list", [("member", ("mcall", V("o"), "tick", []), "n"),
+                  ("member", ("mcall", V("o"), "tick", []), "n")])])))
     # parameters shadow globals; assignment to a parameter stays local
     progs.append(("params", ("seq", [
         ("def", "x", L(1)),
